@@ -30,6 +30,16 @@ func TestRegress_Accept(t *testing.T) {
 		// 0032118: computed keys in arrow heads are expressions
 		"x=({[[...(a),]]:v1,v2})=>{}": "Stmt(x=(Params(Binding({ [[...(a)]]: Binding(v1), Binding(v2) })) => Stmt({ })))",
 		"x=({[k]:v})=>k":              "Stmt(x=(Params(Binding({ [k]: Binding(v) })) => Stmt({ Stmt(return k) })))",
+		// 069ba48: a prefix update expression is an UpdateExpression, the legal base of **
+		"++a ** 2":      "Stmt((++a)**2)",
+		"--a ** 2 ** 3": "Stmt((--a)**(2**3))",
+		// dcc7751: automatic semicolon insertion in front of ( [ and templates behind an expression that cannot be called
+		"a++\n(b)":                 "Stmt(a++) Stmt(b)",
+		"a--\n[b]":                 "Stmt(a--) Stmt([b])",
+		"a++\n`t`":                 "Stmt(a++) Stmt(`t`)",
+		"x = y => {}\n(z)":         "Stmt(x=(Params(Binding(y)) => Stmt({ }))) Stmt(z)",
+		"x = async y => {}\n(z)":   "Stmt(x=(async Params(Binding(y)) => Stmt({ }))) Stmt(z)",
+		"x = async (y) => {}\n[z]": "Stmt(x=(async Params(Binding(y)) => Stmt({ }))) Stmt([z])",
 	} {
 		ast, err := js.Parse(parse.NewInputString(src), js.Options{})
 		if err != nil {
